@@ -381,6 +381,12 @@ def explore(run):
                     {"level": lvl["name"], "plans_total_at_least": n_total, "plans_run": n_run})
             else:
                 completed.append(lvl["name"])
+        pruned = run.counters.get("plans_pruned_signature_contains_a_failing_signature", 0)
+        if pruned:
+            run.exhaustive = False
+            run.extra["exhaustive_note"] = (
+                "%d plans were not run because their deviation signature contains the signature of a smaller "
+                "failing case (minimal-counterexample policy); everything else in the stated space was run" % pruned)
         run.extra["levels_completed"] = completed
         run.extra["bounds"] = M.bounds(tier)
         if tier == "thorough" and not os.environ.get("C13_NO_SELFCHECK"):
